@@ -113,13 +113,31 @@ CORPUS = [
     # ---- classes learnt in round 6 (eigen-pair order, absolute thresholds, alternative spellings of an argument, stress-based materials)
     (B, "C12", "constitution/tensortrax/models/hyperelastic/_saint_venant_kirchhoff_orthotropic.py", 'E = einsum("a...,aij...->ij...", Ek, M)', 'E = einsum("j...,aij...->ij...", Ek, M)'),
     (B, "C12", "constitution/tensortrax/models/hyperelastic/_saint_venant_kirchhoff_orthotropic.py", "            Ek = (λ2 ** (k / 2) - 1) / k\n", "            Ek = (λ2 ** (k / 2) - 1) / 2\n"),
-    (B, "C01,C14", "mechanics/_multipoint.py", "        self.points = self.points[\n            self.points != np.arange(self.mesh.npoints)[centerpoint]\n        ]\n", "        pass\n"),
+    (B, "C01,C14", "mechanics/_multipoint.py", "        self.points = self.points[self.points != ids[centerpoint]]\n", "        pass\n"),
     (B, "C13", "region/_boundary.py", "        normals = dA / dV\n", "        normals = np.divide(dA, dV, out=np.zeros_like(dA), where=dV > 1e-9)\n"),
     (B, "C18", "mechanics/_free_vibration.py", "        self.eigenvalues, self.eigenvectors = solver(A=K, M=M, sigma=sigma, **kwargs)", "        self.eigenvalues, self.eigenvectors = solver(A=K, M=M, sigma=sigma, **kwargs)\n        self.eigenvalues = np.abs(self.eigenvalues)"),
     (B, "C08,C09", "dof/_tools.py", "            value = value.ravel()\n", '            value = value.ravel(order="K")\n'),
     (B, "C03", "constitution/_mixed.py", "        self._FA4bb = ddot(F, self._A4bb, mode=(2, 4), parallel=self.parallel)", "        self._FA4bb = ddot(self._A4bb, F, mode=(4, 2), parallel=self.parallel)"),
     (B, "C02", "assembly/expression/_bilinear.py", "                len_ubasis = values.shape[3]", "                len_ubasis = values.shape[2]"),
     (B, "C06,C04", "element/_quad.py", "        d2hdrds[sa == 0] = ra[sa == 0] * -s", "        d2hdrds[sa == 0] = ra[sa == 0] * -r"),
+    # ---- the repairs of rounds 7 and 8 reverted or bent (each obligation that found a defect has to keep finding it)
+    (B, "C08", "mesh/_dual.py", "        cells_new = cells_new + offset\n", "        cells_new += offset\n"),
+    (B, "C02", "assembly/expression/_mixed.py", "sym=sym and i == j", "sym=sym"),
+    (B, "C12", "constitution/linear_elasticity/_linear_elastic.py", "        e[2, 2] = -nu / (1 - nu) * (e[0, 0] + e[1, 1])", "        e[2, 2] = -nu / (1 - nu) * (F[0, 0] + F[1, 1])"),
+    (B, "C01,C14", "mechanics/_multipoint.py", "        self.points = ids[self.points]\n", ""),
+    (B, "C18", "mechanics/_free_vibration.py", 'kwargs.pop("sigma", 0)', 'kwargs.get("sigma", 0)'),
+    (B, "C03", "constitution/_base.py", 'out = kwargs.pop("out", None)\n        gradients', 'out = kwargs.get("out", None)\n        gradients'),
+    (B, "C03", "constitution/hyperelasticity/_neo_hooke_nearly_incompressible.py", "            A4.fill(0)\n", "            np.multiply(A4, 0, out=A4)\n"),
+    (B, "C13", "region/_boundary.py", "        if self.evaluate_gradient:\n            self.dA, self.dV, self.normals, self.tangents = self._init_faces()\n\n    def _init_faces",
+     "        if self.evaluate_gradient and not hasattr(self, \"dA\"):\n            self.dA, self.dV, self.normals, self.tangents = self._init_faces()\n\n    def _init_faces"),
+    (B, "C16", "mesh/_tools.py", "        points_new = np.asarray(points)[index]\n", "        points_new = np.round(np.asarray(points)[index], decimals)\n"),
+    (B, "C07", "solve/_solve.py", "    dr0 = K10.dot(ext0 - u0)\n", "    dr0 = K10.dot(np.zeros_like(u0) if np.isscalar(ext0) else ext0 - u0)\n"),
+    (B, "C02", "assembly/expression/_mixed.py", "        self.dx = self.v.field[0].region.dV if dx is None else dx\n        self._form = IntegralForm(np.zeros(len(v.field.fields))", "        self.dx = self.v.field[0].region.dV\n        self._form = IntegralForm(np.zeros(len(v.field.fields))"),
+    (B, "C15", "mechanics/_job.py", '                    if "x0" in kwargs.keys():\n                        kwargs["x0"].link(substep.x)\n', '                    if "x0" in kwargs.keys() and i == 0:\n                        kwargs["x0"].link(substep.x)\n'),
+    (B, "C09,C01", "tools/_newton.py", "            r *= body.assemble.multiplier", "            r = r * body.assemble.multiplier"),
+    (B, "C06,C19", "region/_region.py", "            region.h = np.ascontiguousarray(np.expand_dims(region.element.h, -1))", "            region.h = np.ascontiguousarray(np.expand_dims(getattr(region.element, \"h0\", region.element.h), -1))\n            region.element.h0 = region.element.h"),
+    (B, "C16", "mesh/_tools.py", "        points_phi = phi\n        n = len(points_phi)\n", "        points_phi = phi\n"),
+    (B, "C19", "tools/_project.py", "    idx[: len(dim)] = idx[: len(dim)][::-1]", "    idx[: len(dim)] = np.roll(idx[: len(dim)], 1)"),
     # ---- behaviour-preserving edits: the listed checks must stay silent
     (K, "C04", "element/_quad.py", "            * 0.25\n        )\n\n    def gradient", "            / 4\n        )\n\n    def gradient"),
     (K, "C17,C03", "math/_tensor.py", "    out = np.add(A, transpose(A), out=out)\n    return np.multiply(out, 0.5, out=out)", "    out = np.add(A, transpose(A), out=out)\n    return np.divide(out, 2, out=out)"),
@@ -139,6 +157,10 @@ CORPUS = [
     (K, "C13", "region/_boundary.py", "        normals = dA / dV\n", "        normals = np.divide(dA, dV, out=np.zeros_like(dA), where=dV > 0)\n"),
     (K, "C12", "constitution/tensortrax/models/hyperelastic/_saint_venant_kirchhoff_orthotropic.py", 'E = einsum("a...,aij...->ij...", Ek, M)', 'E = einsum("b...,bij...->ij...", Ek, M)'),
     (K, "C08,C09", "dof/_tools.py", "            value = value.ravel()\n", '            value = value.reshape(-1)\n'),
+    (K, "C08", "mesh/_dual.py", "        cells_new = cells_new + offset\n", "        cells_new = offset + cells_new\n"),
+    (K, "C03", "constitution/hyperelasticity/_neo_hooke_nearly_incompressible.py", "            A4.fill(0)\n", "            A4[...] = 0\n"),
+    (K, "C18", "mechanics/_free_vibration.py", 'sigma = kwargs.pop("sigma", 0)\n        self.eigenvalues, self.eigenvectors = solver(A=K, M=M, sigma=sigma, **kwargs)', 'kwargs.setdefault("sigma", 0)\n        self.eigenvalues, self.eigenvectors = solver(A=K, M=M, **kwargs)'),
+    (K, "C07", "solve/_solve.py", "    dr0 = K10.dot(ext0 - u0)\n", "    du0 = ext0 - u0\n    dr0 = K10.dot(du0)\n"),
     (K, "C19,C18", "mechanics/_solidbody.py", "        return dot(P, transpose(F))\n\n    def _cauchy_stress", "        FT = transpose(F)\n        return dot(P, FT)\n\n    def _cauchy_stress"),
 ]
 
@@ -148,7 +170,8 @@ def run_one(idx, entry, jobs):
     tmp = tempfile.mkdtemp(prefix="fvself_")
     res = dict(idx=idx, kind=kind, file=relf, old=old[:60], new=new[:60], checks={})
     try:
-        shutil.copytree("/repo/src", os.path.join(tmp, "src"), ignore=shutil.ignore_patterns("__pycache__", "*.egg-info"))
+        # the tree the edits are applied to: /repo's sources (a clean copy of them can be named while something else patches /repo)
+        shutil.copytree(os.environ.get("FVERIF_SELFTEST_SRC", "/repo/src"), os.path.join(tmp, "src"), ignore=shutil.ignore_patterns("__pycache__", "*.egg-info"))
         p = os.path.join(tmp, "src", "felupe", relf)
         s = open(p).read()
         n = s.count(old)
